@@ -15,6 +15,17 @@ LEVELS = {
                 "amino/protobuf/gob library determinism is observed, not proved.",
         "technique": "Lean 4 theorem (order-independence by induction over histories) + regenerated source facts + differential/two-process replica runs",
     },
+    "C10": {
+        "text": "Proof: C10_refused_untouched, C10_checktx_outsider, C10_outsider_no_effect (on every state reachable from any genesis, by "
+                "the DKG-membership invariant proved by induction over histories) and C10_noninterference (a simulation relation "
+                "'equal except one sender's nonce records' preserved by every ABCI call, so later answers to other senders are "
+                "identical over any continuation) are Lean theorems over the model; C10_total_* show the model's totalised accesses "
+                "never leave their domain on reachable states. Partial: panics in the byte layer (base64, secp256k1 recovery, protobuf, "
+                "blst) are outside the model and only exercised (recover() around each call, garbage and damaged-signature inputs).",
+        "design_ref": "DESIGN.md §4 C10",
+        "note": "Trusted: Lean kernel; correspondence harness; byte layer and crypto oracles as parameters; Sized hypothesis.",
+        "technique": "Lean 4 invariant + simulation proofs over histories + differential correspondence + twin-run injection monitor on the real app",
+    },
     "C11": {
         "text": "Proof: C11_invariant (induction over all histories from any valid genesis, any map iteration orders) and C11_accept: on "
                 "every reachable state a transaction can extend the configuration list only if it is a BatchConfig vote whose sender plus "
